@@ -14,14 +14,14 @@ RULE = ("case = (protocol version 2|3; 48-bit device id; for V3 a 64-byte token 
         "applied = full settable state; initial = independent device state incl. display, sensors, filter flag; per-exchange "
         "delivery script: cut set and inter-chunk gap (V3: any cut set incl. byte-by-byte and coalescing; V2: one segment per "
         "packet) and 0..3 unsolicited frames before/after the solicited reply from {duplicate of the reply, spontaneous 0xC0 "
-        "report of the old/current state, 0xA0/0xA1 reports, type-5 0xB5 notification}; optionally the device pushes such frames - one, or a backlog of up to 100 - on the idle connection before the apply, and the client may then stay idle for up to 30 h; the unit forgets a V3 session key 12 h + 1 min after the handshake; optionally the unit hangs up after every answer - FIN or RST, seen by the client's event loop after or in the same pass as the answer; optionally the host's local time zone ends or begins daylight saving time during the idle period). (a) client A refreshes, sets every "
+        "report of the old/current state, 0xA0/0xA1 reports, type-5 0xB5 notification}; optionally the device pushes such frames - one, or a backlog of up to 100 - on the idle connection before the apply, and the client may then stay idle for up to 30 h; the unit forgets a V3 session key 12 h + 1 min after the handshake; optionally a poll of client A is still in flight when A applies; optionally the unit hangs up after every answer - FIN or RST, seen by the client's event loop after or in the same pass as the answer; optionally the host's local time zone ends or begins daylight saving time during the idle period). (a) client A refreshes, sets every "
         "attribute, apply(): the model device's state decoded with its own vendor-layout decoder must equal applied field by "
         "field, non-settable fields unchanged, no frame rejected, every packet carries the configured device id, and A's "
         "attributes equal applied. (b) a fresh client B (new object, connection, handshake) refresh(): B's attributes equal the "
         "model's state (enum members / raw custom fan), sensor temperatures by C11's predicate, online and supported. (c) optionally the history continues: another party (client B, or the remote control) changes the unit, then client A applies the same state again and the unit must be in it again. "
         "Non-trivial: applied != initial in >= 3 fields and (V3 or setpoint outside 17..30 or half degree or a cut inside a "
         "packet or an unsolicited frame). Distinct by whole case.")
-ASSUMPTIONS = ["V2 has no stream reassembly by design: V2 replies are delivered one packet per segment (generator soundness restriction, DESIGN C01 N)",
+ASSUMPTIONS = ["a unit that hangs up after every answer is not combined with two requests outstanding at once (the second request is then lost with the connection: a fault, C08's domain)", "V2 has no stream reassembly by design: V2 replies are delivered one packet per segment (generator soundness restriction, DESIGN C01 N)",
                "the model device echoes its state after a 0x40 command as real devices do"]
 
 TOKENS = ["DUP", "STATE", "STATE_OLD", "A0", "A1", "B5N"]
@@ -99,8 +99,20 @@ def _check_once(case: dict):
             # ... and client A stays idle for a long time (around or past the 12 h session lifetime on V3), with any such reports unread
             import asyncio
             await asyncio.sleep(case["idle_hours"] * 3600.0)
+        bg = None
+        if case.get("inflight"):
+            # schedule: a poll of the same object is still waiting for its answer (request sent 0.1 s ago, the unit takes 0.3 s) when the
+            # user sets the attributes and calls apply(): the state requested at that call is what must reach the unit
+            import asyncio
+            saved_on_data = dev.on_data
+            dev.on_data = lambda dev_, conn, frame: ("answer", {"delay": 0.3})
+            bg = asyncio.ensure_future(a.refresh())
+            await asyncio.sleep(0.1)
         acutil.set_attrs(a, applied)
         await a.apply()
+        if bg is not None:
+            await bg
+            dev.on_data = saved_on_data
         res["a_attrs"] = acutil.read_attrs(a)
         res["model_after"] = m.state.copy()
         res["before"] = before
@@ -149,7 +161,7 @@ def _check_once(case: dict):
         if getattr(st_after, k) != getattr(res["before"], k):
             return (f"apply/unsettable-changed/{k}", f"{k} changed from {getattr(res['before'], k)} to {getattr(st_after, k)}")
     exp = acutil.expected_attrs_from_model(st_after)
-    for who in ("a_attrs", "b_attrs"):
+    for who in (("b_attrs",) if case.get("inflight") else ("a_attrs", "b_attrs")):      # (what client A shows after a poll overlapped its apply is not specified)
         got = res[who]
         if who == "b_attrs" and not (got["online"] and got["supported"]):
             return ("b/offline", f"fresh client after refresh: online={got['online']} supported={got['supported']}")
@@ -235,7 +247,8 @@ def cases():
         optional={"idle_push": st.lists(st.sampled_from(["STATE", "STATE", "A0", "B5N"]), min_size=1, max_size=3), "again": st.sampled_from([None, "client", "remote"]),
                   "idle_hours": st.sampled_from([0, 0, 1, 11.9, 12.5, 13, 30]), "push_repeat": st.sampled_from([1, 1, 1, 40, 100]),
                   "hangup": st.sampled_from([None, None, "fin", "rst", "fin_same", "rst_same"]),
-                  "zone": st.sampled_from(ZONES)}).map(lambda c: dict({k_: v_ for k_, v_ in c.items() if k_ != "zone"}, **c.get("zone", {})))
+                  "inflight": st.sampled_from([False, False, False, True]),
+                  "zone": st.sampled_from(ZONES)}).map(lambda c: dict({k_: v_ for k_, v_ in c.items() if k_ != "zone" and not (k_ == "inflight" and c.get("hangup"))}, **c.get("zone", {})))
 
 
 def run(ctx) -> None:
@@ -279,6 +292,8 @@ def run(ctx) -> None:
                                              "outdoor_raw": 104, "indoor_tenths": 3, "outdoor_tenths": 0, "filter_alert": False}, "script": [], "idle_hours": hours, "again": "remote"}, **zone)
                     if hangup:
                         case["hangup"] = hangup
+                    elif k % 2 == 0:
+                        case["inflight"] = True
                     ctx.check(case, lambda c: _run_one(ctx, c))
     ctx.sweep("reports pushed on the idle connection x backlog size x idle period x version; hang-up personality x idle period x host time zone x version", k, True)
     ctx.hyp("end-to-end", cases(), lambda c: _run_one(ctx, c), ctx.n(4000, 160000))
